@@ -1099,8 +1099,10 @@ impl CollectUnicodes for Cmap12<'_> {
             let mut start = group.start_char_code();
             let mut end = group.end_char_code().min(UNICODE_MAX);
             let mut gid = group.start_glyph_id();
+            // As in HarfBuzz this is unsigned arithmetic: malformed groups
+            // (end < start, start or glyph id near u32::MAX) wrap around.
             if gid == 0 {
-                start += 1;
+                start = start.wrapping_add(1);
                 gid += 1;
             }
 
@@ -1108,8 +1110,8 @@ impl CollectUnicodes for Cmap12<'_> {
                 continue;
             }
 
-            if (gid + end - start) as usize >= num_glyphs {
-                end = UNICODE_MAX.min(start + num_glyphs as u32 - gid);
+            if gid.wrapping_add(end).wrapping_sub(start) as usize >= num_glyphs {
+                end = UNICODE_MAX.min(start.wrapping_add(num_glyphs as u32).wrapping_sub(gid));
             }
             out.insert_range(start..=end);
         }
